@@ -135,6 +135,53 @@ def why_class(det, path):
     return "other"
 
 
+# ---------------------------------------------------------------------------------------------
+# small-scope exhaustive tier: every failing (kind, path) of a finite family is its own finding,
+# keyed by the exact input — a change that breaks one more input of the family is a new signature,
+# however many random-kind failures of the same law are already listed.
+
+def small_cases():
+    def arr(n, tail):
+        known = {str(i): {"p": ["integer"]} for i in range(n)}
+        unk = {"und": {"p": ["undefined"]}, "int": {"p": ["integer"]}, "bytes": {"p": ["bytes"]}}[tail]
+        return {"k": known, "u": unk}
+    out = []
+    for n in (0, 1, 2):
+        for tail in ("und", "int", "bytes"):
+            lens = [n] if tail == "und" else [n, n + 1, n + 2]
+            for ln in lens:
+                val = [1] * n + [(2 if tail == "int" else b"x")] * (ln - n)
+                for wrap in ("root", "field", "nested"):
+                    for idx in (-3, -2, -1, 0, 1, 2):
+                        a = arr(n, tail)
+                        if wrap == "root":
+                            k, v, path = {"p": [], "a": a}, val, [{"i": idx}]
+                        elif wrap == "field":
+                            k = {"p": [], "o": {"k": {"a": {"p": [], "a": a}}, "u": {"p": ["undefined"]}}}
+                            v, path = {"a": val}, [{"f": "a"}, {"i": idx}]
+                        else:
+                            # array of arrays: the inner array is element 0 of an outer known array
+                            k = {"p": [], "a": {"k": {"0": {"p": [], "a": a}}, "u": {"p": ["undefined"]}}}
+                            v, path = [val], [{"i": 0}, {"i": idx}]
+                        out.append({"k": k, "v": enc(v), "path": path, "xk": {"p": ["integer"]}, "x": enc(7),
+                                    "k2": {"p": ["null"]}, "w": enc(None),
+                                    "small": "%s:n%d:%s:len%d:%d" % (wrap, n, tail, ln, idx)})
+    return out
+
+
+def run_all(ctx):
+    cases = small_cases()
+    for i, case in enumerate(cases):
+        if i % ctx.nprocs != ctx.proc:
+            continue
+        ctx.cur_case = case
+        ctx.cur_index = -1 - i
+        run_case(ctx, case)
+    ctx.count("small_scope_cases", len([i for i in range(len(cases)) if i % ctx.nprocs == ctx.proc]))
+    if ctx.proc == 0:
+        ctx.extra["small_scope_total"] = len(cases)
+
+
 def run_case(ctx, case):
     r = ctx.call({"op": "kind_ops", "k": case["k"], "k2": case["k2"], "xk": case["xk"], "path": case["path"],
                   "v": case["v"], "x": case["x"], "w": case["w"]})
@@ -228,6 +275,14 @@ def run_case(ctx, case):
         neg = "negative_index" if any("i" in sg and sg["i"] < 0 for sg in path) else "plain_path"
         seen = set()
         for law, det in viol:
+            if case.get("small"):
+                if law[0] not in "GIR":
+                    continue       # the second kind is trivial in the small-scope family
+                sig = "small:%s:%s" % (law, case["small"])
+                if sig not in seen:
+                    seen.add(sig)
+                    ctx.violation(sig, dict(base, **det))
+                continue
             sig = "%s:%s" % (law, neg) if law[0] in "GIR" else law
             sig += ":" + why_class(det, path)
             if sig not in seen:
